@@ -16,7 +16,7 @@ ID = "C06"
 LEAN_TARGETS = ["ChmpyVerif.Props.C06"]
 T = "ChmpyVerif.Props.C06."
 THEOREMS = [T + n for n in (["leaves_ok%d" % i for i in range(8)] + ["faces_match%d" % i for i in range(8)] + ["trees%d" % i for i in range(8)]
-                            + ["every_leaf_ok", "every_leaf_faces_match", "same_face_data_same_segments", "opposite_faces_glue", "expected_keys_distinct",
+                            + ["every_leaf_ok", "every_leaf_faces_match", "same_face_data_same_segments", "opposite_faces_glue", "two_cells_glue", "expected_keys_distinct",
                                "vertex_inside_edge", "vertex_at_crossing", "slot_nf", "gridEdge_nf", "slot_eq_iff_same_edge"])]
 TRUSTED = [
     "translator harness/gen/mc.py: decodes the base64 lookup tables, parses the_big_switch / the reference-edge chain of test_internal from the .pyx "
@@ -38,7 +38,7 @@ MANIFEST = {
              "the_big_switch (256 sign configurations x every outcome of the face/interior tests): triangles use only edge indices 0..12, every used "
              "cube edge joins corners on opposite sides of the level, no directed edge occurs twice, every directed edge has its reverse in the same cell "
              "or lies in exactly one cube face, every ambiguous face is resolved by a face test, the segments left on a face depend only on that face's "
-             "own data, and opposite faces of neighbouring cells carry exactly reversed segments; the test outcomes of each configuration form a complete "
+             "own data, and opposite faces of neighbouring cells carry exactly reversed segments (two_cells_glue: any two leaves that see the same physical face data on a shared face leave mutually reversed directed segments on it); the test outcomes of each configuration form a complete "
              "decision tree. Proved over ℚ: a vertex lies strictly inside its grid edge, at the zero of the linear interpolant; the vertex-sharing slot "
              "identifies exactly the same physical grid edge. Not proved: the global assembly argument, volume convergence, the surface wrappers."),
     "note": "Trusted: Lean kernel + Mathlib; translator (symbolic execution of the switch); hand model of the numeric tests tied by correspondence; compiled extension = its .pyx.",
